@@ -18,6 +18,7 @@ pub enum SF {
     C03,
     C15,
     C14,
+    C08,
 }
 
 #[derive(Clone, Debug, Hash, PartialEq, Serialize, Deserialize)]
@@ -51,11 +52,56 @@ fn conc_candidates(focus: SF) -> &'static Vec<u32> {
             static C: OnceLock<Vec<u32>> = OnceLock::new();
             C.get_or_init(|| static_corpus().funcs.iter().filter(|d| matches!(d.family, "concu" | "conc")).map(|d| d.id).collect())
         }
+        SF::C08 => {
+            // hit counts are observable where only residents compete on overflow: the async cache
+            static D: OnceLock<Vec<u32>> = OnceLock::new();
+            D.get_or_init(|| {
+                static_corpus()
+                    .funcs
+                    .iter()
+                    .filter(|d| matches!(d.family, "conc" | "grid") && d.flavour == Flavour::Async && d.effective_policy() == Policy::Lfu && d.limit.map(|n| n >= 2).unwrap_or(false) && d.ttl.is_none() && d.max_memory.is_none() && !d.cache_if && !d.invalidate_on && !d.is_result())
+                    .map(|d| d.id)
+                    .collect()
+            })
+        }
     }
+}
+
+/// C08 under concurrency: the prefix fills the cache and gives every key but the first an
+/// exact number of hits; the scheduled threads then hit the first key (and sometimes one
+/// other) concurrently.  Afterwards one fresh store overflows the cache.
+fn decode_c08(d: &mut Dec, tier: Tier) -> SchedCase {
+    let corpus = static_corpus();
+    let cands = conc_candidates(SF::C08);
+    let fid = cands[d.choose16(cands.len())];
+    let cap = corpus.by_id(fid).limit.unwrap_or(2).min(4);
+    let mut prefix: Vec<(u8, u8)> = (0..cap as u8).map(|k| (0u8, k)).collect();
+    for k in 1..cap as u8 {
+        for _ in 0..d.choose(5) {
+            prefix.push((0, k));
+        }
+    }
+    let nt = 2 + if tier == Tier::Thorough && d.chance(1, 3) { 1 } else { 0 };
+    let mut threads = Vec::new();
+    for t in 0..nt {
+        let mut ops = Vec::new();
+        for _ in 0..1 + d.choose(3) {
+            ops.push(SOp::Call { f: 0, k: 0 });
+        }
+        if t == 0 && d.chance(1, 3) {
+            let at = d.choose(ops.len() + 1);
+            ops.insert(at, SOp::Call { f: 0, k: 1 });
+        }
+        threads.push(ops);
+    }
+    SchedCase { fns: vec![fid], prefix, age_prefix_ns: 0, threads, decisions: d.rest().to_vec() }
 }
 
 pub fn decode(bytes: &[u8], focus: SF, tier: Tier) -> SchedCase {
     let mut d = Dec::new(bytes);
+    if focus == SF::C08 {
+        return decode_c08(&mut d, tier);
+    }
     let corpus = static_corpus();
     let cands = conc_candidates(focus);
     let nf = if d.chance(1, 4) { 2 } else { 1 };
@@ -84,6 +130,7 @@ pub fn decode(bytes: &[u8], focus: SF, tier: Tier) -> SchedCase {
         SF::C17 | SF::C18 => [12, 4, 2, 4, 1, 1, 1],
         SF::C03 | SF::C14 => [10, 0, 0, 0, 0, 0, 0],
         SF::C15 => [12, 0, 0, 0, 2, 0, 1],
+        SF::C08 => unreachable!(),
     };
     let mut threads = Vec::new();
     for _ in 0..nt {
@@ -580,6 +627,69 @@ pub fn judge(case: &SchedCase, focus: SF, explicit: Option<bool>) -> CaseOut {
                 out.classes.push("same_tuple_calls_overlap");
             }
         }
+        SF::C08 => {
+            let d = descs[0];
+            let cap = d.limit.unwrap_or(2);
+            // true number of successful lookups per key index since its (only) store
+            let mut hits: BTreeMap<u8, u64> = BTreeMap::new();
+            let mut seen: BTreeSet<u8> = BTreeSet::new();
+            for (_, k) in &case.prefix {
+                if !seen.insert(*k) {
+                    *hits.entry(*k).or_default() += 1;
+                }
+            }
+            let mut recomputed = false;
+            let mut threads_on: BTreeMap<u8, BTreeSet<usize>> = BTreeMap::new();
+            for r in &run.recs {
+                if let SOp::Call { k, .. } = &r.op {
+                    if r.executed > 0 {
+                        recomputed = true;
+                    }
+                    *hits.entry(*k).or_default() += 1;
+                    threads_on.entry(*k).or_default().insert(r.t);
+                }
+            }
+            let key_of_idx = |k: u8| key_of(d, None, &key_args(k));
+            let before = list_keys(d.cache_name);
+            let residents: BTreeSet<String> = seen.iter().map(|k| key_of_idx(*k)).collect();
+            if recomputed || before.as_ref() != Some(&residents) || seen.len() != cap {
+                // something was evicted or recomputed during the concurrent phase: other checks' business
+                out.classes.push("concurrent_phase_changed_the_store");
+            } else {
+                let fresh = 60u8;
+                let (_, ex) = plain_call(&corpus, d, fresh, 9000);
+                let after = list_keys(d.cache_name).unwrap_or_default();
+                let fresh_key = key_of_idx(fresh);
+                let h = |k: u8| hits.get(&k).copied().unwrap_or(0);
+                let contested: Vec<u8> = threads_on.iter().filter(|(_, ts)| ts.len() >= 2).map(|(k, _)| *k).collect();
+                // a lost update could matter: some contested key has strictly more hits than
+                // another resident, by less than its number of concurrent hits
+                out.nontrivial = contested.iter().any(|c| seen.iter().any(|o| o != c && h(*c) > h(*o) && h(*o) > 0));
+                if out.nontrivial {
+                    out.classes.push("contested_hits_decide_the_victim");
+                }
+                if ex == 1 && after.contains(&fresh_key) {
+                    let evicted: Vec<u8> = seen.iter().copied().filter(|k| !after.contains(&key_of_idx(*k))).collect();
+                    if let [v] = evicted[..] {
+                        let min = seen.iter().map(|k| h(*k)).min().unwrap_or(0);
+                        if h(v) > min {
+                            out.violation = Some(Violation {
+                                signature: format!("C08:{}:lfu:concurrent-hits", fl),
+                                clause: "concurrent-hits".into(),
+                                step: 0,
+                                expected: format!(
+                                    "{} ({}): the overflowing store evicts an entry with the fewest successful lookups; lookups served per key index: {:?}",
+                                    d.fn_name,
+                                    d.attr_text,
+                                    seen.iter().map(|k| (*k, h(*k))).collect::<Vec<_>>()
+                                ),
+                                observed: format!("key index {} ({} successful lookups) was evicted; the cache holds {:?}", v, h(v), after),
+                            });
+                        }
+                    }
+                }
+            }
+        }
         SF::C15 => {
             out.nontrivial = same_cache_two_threads;
             for (fi, d) in descs.iter().enumerate() {
@@ -619,6 +729,7 @@ sf_fns!(run_c18, desc_c18, SF::C18);
 sf_fns!(run_c03, desc_c03, SF::C03);
 sf_fns!(run_c15, desc_c15, SF::C15);
 sf_fns!(run_c14, desc_c14, SF::C14);
+sf_fns!(run_c08, desc_c08, SF::C08);
 
 pub const SCHED_LEN: usize = 40 + 160;
 
@@ -750,7 +861,13 @@ pub fn canonical_lookup_programs(focus: SF) -> Vec<(String, SchedCase)> {
 
 pub fn exhaustive_stage(focus: SF, tier: Tier, _seed: u64) -> crate::infra::CustomOut {
     let mut out = crate::infra::CustomOut::default();
-    let progs = if matches!(focus, SF::C17 | SF::C18) { canonical_programs(tier) } else { canonical_lookup_programs(focus) };
+    let progs = if matches!(focus, SF::C17 | SF::C18) {
+        canonical_programs(tier)
+    } else if focus == SF::C08 {
+        canonical_hit_programs()
+    } else {
+        canonical_lookup_programs(focus)
+    };
     // preemption bounds: (sync programs, async programs); async stores touch ~10x more locks
     let (bound_sync, bound_async, max_runs, n_threads) = match tier {
         Tier::Quick => (2usize, 1usize, 2_000usize, 8usize),
@@ -762,6 +879,7 @@ pub fn exhaustive_stage(focus: SF, tier: Tier, _seed: u64) -> crate::infra::Cust
         SF::C03 => "C03",
         SF::C15 => "C15",
         SF::C14 => "C14",
+        SF::C08 => "C08",
     };
     // spread programs over worker threads (each run is a forked child)
     let progs = Arc::new(progs);
@@ -831,6 +949,28 @@ pub fn exhaustive_c03(t: Tier, s: u64) -> crate::infra::CustomOut {
 pub fn exhaustive_c14(t: Tier, s: u64) -> crate::infra::CustomOut {
     exhaustive_stage(SF::C14, t, s)
 }
+pub fn exhaustive_c08(t: Tier, s: u64) -> crate::infra::CustomOut {
+    exhaustive_stage(SF::C08, t, s)
+}
+
+/// Canonical programs for C08 under concurrency: key 1 has three exact hits, two threads hit
+/// key 0 twice each (and a variant with one hit each against a single hit of key 1).
+pub fn canonical_hit_programs() -> Vec<(String, SchedCase)> {
+    let corpus = static_corpus();
+    let mut v = Vec::new();
+    for id in conc_candidates(SF::C08) {
+        let d = corpus.by_id(*id);
+        if d.limit != Some(2) {
+            continue;
+        }
+        let c = |k: u8| SOp::Call { f: 0, k };
+        let mk = |name: &str, prefix: Vec<(u8, u8)>, threads: Vec<Vec<SOp>>| (format!("async:{}:{}", d.fn_name, name), SchedCase { fns: vec![d.id], prefix, age_prefix_ns: 0, threads, decisions: vec![] });
+        v.push(mk("two-hits||two-hits-vs-three", vec![(0, 0), (0, 1), (0, 1), (0, 1), (0, 1)], vec![vec![c(0), c(0)], vec![c(0), c(0)]]));
+        v.push(mk("one-hit||one-hit-vs-one", vec![(0, 0), (0, 1), (0, 1)], vec![vec![c(0)], vec![c(0)]]));
+    }
+    v
+}
+
 pub fn exhaustive_c15(t: Tier, s: u64) -> crate::infra::CustomOut {
     exhaustive_stage(SF::C15, t, s)
 }
